@@ -37,3 +37,22 @@ Theorem C10_parameters_counts_once :
           (seq 0 (length (f_coupled b))) 0.
 Proof. exact parameters_counts_once. Qed.
 Print Assumptions C10_parameters_counts_once.
+
+(* Network level: one training step of the whole network (Network::update, any layer mix, any
+   gradients) leaves every feedback block of the network tied. *)
+Theorem C10_network_update_keeps_blocks_tied :
+  forall (N : Num) (n n' : network N) stepnr wgs bgs,
+    blocks (@wfb N) (n_layers n) -> update n stepnr wgs bgs = Ok n' ->
+    blocks (fun b => wfb b /\ Tied b) (n_layers n').
+Proof. exact net_update_tied. Qed.
+Print Assumptions C10_network_update_keeps_blocks_tied.
+
+(* ... and so does any history of network training steps *)
+Theorem C10_network_blocks_tied_forever :
+  forall (N : Num) (n n' : network N) (steps : list (Z * list (grad N) * list (option (bgrad N)))),
+    blocks (fun b => wfb b /\ Tied b) (n_layers n) ->
+    foldM (fun m (s : Z * list (grad N) * list (option (bgrad N))) =>
+             update m (fst (fst s)) (snd (fst s)) (snd s)) steps n = Ok n' ->
+    blocks (fun b => wfb b /\ Tied b) (n_layers n').
+Proof. exact net_tied_forever. Qed.
+Print Assumptions C10_network_blocks_tied_forever.
